@@ -20,7 +20,9 @@ pub fn corr(ctx: &mut Ctx) {
         if i % 3 == 1 {
             // with metadata whose layout depends on the colour type (kept: no stripping), so that a result
             // returned at any expiry position must have gone through the same chunk clean-up
-            let mut enc = crate::meta_oracle::gen_meta(&mut rng, &case.img, true);
+            // (no sRGB / iCCP here: they switch grayscale conversion off inside the call, which the lineage
+            // request's switches would have to mirror; colour-space chunks are C14's subject)
+            let mut enc = crate::meta_oracle::gen_meta(&mut rng, &case.img, false);
             enc.fixed_filter = None;
             enc.pre_idat.retain(|c| &c.0 != b"caBX");
             case.input = case.img.encode_png(&mut rng, &enc);
